@@ -50,6 +50,14 @@ def o_footprint_upwind(case):
     rlat, rlon = case["ref_lat"], case["ref_lon"]
     tlat, tlon = xy_to_latlon(xmax / 2, ymax / 2, rlat, rlon)
     met = dict(wind_speed=case["speed"], wind_dir=case["wd"], mol=case["mol"])
+    met_index = 0
+    if case.get("series"):
+        # a time series of directions (each in [0, 360)): the step under test is the LAST entry, run with its own index - whatever the
+        # earlier entries are (a wind backing or veering through north, jumps of more than 180 degrees), step i is entry i
+        met["wind_dir"] = [float(x) for x in case["series"]] + [case["wd"]]
+        met_index = len(case["series"])
+        if case.get("series_speed"):
+            met["wind_speed"] = [case["speed"]] * (met_index + 1)
     if case.get("int_typed"):
         # whole numbers as a YAML file delivers them: Python ints
         met["wind_dir"] = int(case["wd"])
@@ -62,7 +70,7 @@ def o_footprint_upwind(case):
         domain=dict(nx=nx, ny=ny, xmax=xmax, ymax=ymax, nz=case["nz"], modes=[nx, ny], ref_lat=rlat, ref_lon=rlon, halo=case.get("halo")),
         towers=[dict(name="T", lat=float(tlat), lon=float(tlon), z_m=case["zm"])],
         met=met, solver=dict(closure=case["closure"], footprint=True, precision="double")))
-    r = run_bldfm_single(cfg, cfg.towers[0])
+    r = run_bldfm_single(cfg, cfg.towers[0], met_index=met_index)
     f = np.asarray(r["flx"], dtype=float)
     X, Y = np.asarray(r["grid"][0]), np.asarray(r["grid"][1])
     tx, ty = cfg.towers[0].x, cfg.towers[0].y
@@ -137,7 +145,14 @@ def run(rng, tier, deep):
         if c["closure"] == "OAAHOC":
             c["ustar"] = float(np.sqrt(0.0856 * 0.845 * c["speed"] / np.log(c["zm"] / c["z0"])))
         run_oracle(st, o_footprint_upwind, c)
-    return finish(st, "wind decomposition: speeds 0.1..20, whole-degree directions and speeds as int / numpy int / float32 / 0-d array / integer series, directions incl. cardinals and out-of-range angles (correspondence 1e-13); "
+    for k in range(budget(tier, deep, 3, 16)):
+        c = upwind_case(rng)
+        wd = c["wd"]
+        kinds = [[(wd + 140.0) % 360.0], [(wd + 220.0) % 360.0], [(wd + 30.0) % 360.0, (wd + 10.0) % 360.0],
+                 [(wd - 20.0) % 360.0, (wd + 180.0) % 360.0, (wd + 181.0) % 360.0], [5.0, 355.0], [350.0, 20.0]]
+        c.update(series=kinds[k % len(kinds)], series_speed=bool(k % 2))
+        run_oracle(st, o_footprint_upwind, c)
+    return finish(st, "direction SERIES run at their own step index (backing / veering through north, jumps beyond 180 degrees); wind decomposition: speeds 0.1..20, whole-degree directions and speeds as int / numpy int / float32 / 0-d array / integer series, directions incl. cardinals and out-of-range angles (correspondence 1e-13); "
                   "end-to-end: configs built with parse_config_dict, tower at the domain centre given by lat/lon, 48..64 cells, square and oblong, "
                   "all four closures, stable/neutral/unstable, ustar and z0 forcing, wind directions evenly covering [0,360); oracle: bearing of the "
                   "footprint centroid vs wind_dir (8 degrees; worst observed on the clean tree 5.1)", deep, 1e-13)
